@@ -23,7 +23,7 @@
 (* values in ascending order (nulls last): a rule need not be associative, *)
 (* and the result must not depend on the order of the INPUT datapoints.    *)
 (***************************************************************************)
-EXTENDS VTLOperators
+EXTENDS VTLValidation
 
 IsAgg(rule) == rule.kind = "agg"
 InPair(v, a, b) == IF IsNull(v) THEN IsNull(a) \/ IsNull(b) ELSE v = a \/ v = b
@@ -142,5 +142,37 @@ EvalVP(t, env, rules) ==
                 ELSE [comps |-> core.comps \cup vcs,
                       rows |-> { [n \in AllNames(core) \cup { c.n : c \in vcs } |->
                                     IF n \in AllNames(core) THEN r[n] ELSE GroupV(rules[n], grp(r), n, (CHOOSE c \in vcs : c.n = n).t)] : r \in core.rows }]
+      [] t.k = "hier" /\ ~t.check ->
+            \* hierarchy: a computed item gets the rule over the viral values of its children - the datapoints of the operand for a leaf
+            \* item, the values already computed for an item that is itself computed - per key of the other identifiers; datapoints
+            \* that are not computed keep their own
+            LET x == EvalVP(t.ds, env, rules)
+                core == Hierarchy(StripV(x), t.comp, t.rules, t.mode, t.input, t.out, t.order)
+                vcs == { c \in x.comps : c.r = "V" }
+                vn == { c.n : c \in vcs }
+                oids == IdsOf(x) \ {t.comp}
+                RECURSIVE VSteps(_, _, _)
+                VSteps(order, acc, seen) ==
+                    IF order = <<>> THEN acc
+                    ELSE LET j == Head(order)
+                             kids == { t.rules[j].right[i][2] : i \in DOMAIN t.rules[j].right }
+                             rowsOf(c) == IF c \in seen THEN { r \in acc : r[t.comp] = c } ELSE { Rst(r, oids \cup {t.comp} \cup vn) : r \in { q \in x.rows : q[t.comp] = c } }
+                             pool == UNION { rowsOf(c) : c \in kids }
+                             new == { [n \in oids \cup {t.comp} \cup vn |->
+                                         IF n \in oids THEN k[n] ELSE IF n = t.comp THEN t.rules[j].left
+                                         ELSE GroupV(rules[n], { r \in pool : Rst(r, oids) = k }, n, (CHOOSE c \in vcs : c.n = n).t)]
+                                      : k \in { Rst(r, oids) : r \in pool } }
+                         IN  VSteps(Tail(order), { r \in acc : r[t.comp] # t.rules[j].left } \cup new, seen \cup {t.rules[j].left})
+                nodes == VSteps(t.order, {}, {})
+                computedItems == { t.rules[j].left : j \in DOMAIN t.rules }
+                \* a result datapoint of a computed item is a computed one unless it was taken over unchanged from the operand
+                computedRows == Hierarchy(StripV(x), t.comp, t.rules, t.mode, t.input, "computed", t.order).rows
+                IsComputedRow(r) == r \in computedRows
+                vOf(r, n) == IF r[t.comp] \in computedItems /\ IsComputedRow(r)
+                             THEN LET hit == { q \in nodes : q[t.comp] = r[t.comp] /\ Rst(q, oids) = Rst(r, oids) } IN IF hit = {} THEN Null ELSE (CHOOSE q \in hit : TRUE)[n]
+                             ELSE LET hit == { q \in x.rows : Rst(q, IdsOf(x)) = Rst(r, IdsOf(x)) } IN IF hit = {} THEN Null ELSE (CHOOSE q \in hit : TRUE)[n]
+            IN  IF IsE(x) THEN x ELSE IF IsE(core) THEN core
+                ELSE [comps |-> core.comps \cup vcs,
+                      rows |-> { [n \in AllNames(core) \cup vn |-> IF n \in AllNames(core) THEN r[n] ELSE vOf(r, n)] : r \in core.rows }]
       [] OTHER -> EvalD(t, env)
 =============================================================================
